@@ -37,8 +37,15 @@ def max_players(game, boards):
     return max(2, min(cap, n))
 
 
-def tapes(max_size=120):
-    return st.lists(st.integers(0, 2 ** 16 - 1), max_size=max_size)
+@st.composite
+def tapes(draw, max_size=120):
+    # Hypothesis' default list length averages ~5 elements, which would end
+    # almost every hand on defaults; draw the minimum length explicitly
+    # (it shrinks to 0 first, then the list shrinks as usual)
+    lo = draw(st.sampled_from([0, 3, 8, 16, 30, 50, 80]))
+    lo = min(lo, max_size)
+    return draw(st.lists(st.integers(0, 2 ** 16 - 1), min_size=lo,
+                         max_size=max_size))
 
 
 @st.composite
